@@ -58,6 +58,7 @@ def required(tier):
     b.update({f'own:{k}': 20 for k in OWN_KINDS})
     b.update({f'partition:{k}': 20 for k in PARTS})
     b.update({f'clock:{k}': 20 for k in CLOCKS})
+    b['bg-update_noise-between-requests'] = 40
     b.update({f'form:{k}': 20 for k in FORMS})
     b.update({f'antennas:{k}': 10 for k in range(1, 7)})
     b.update({'pols:1': 50, 'pols:2': 50, 'request==maxdelay+1:later': 20, 'request==maxdelay+1:first': 20,
@@ -177,7 +178,13 @@ def gen_cases(seed, tier):
                     ops.append(_clock_op(rng, common.pick(rng, ['set_time', 'add_time', 'reset_start']), t0))
                 else:
                     ops.append(_clock_op(rng, clock, t0))
-            ops.extend(['get', m] for m in _partition(rng, part, D, big))
+            gets = [['get', m] for m in _partition(rng, part, D, big)]
+            if bgk == 'coded' and len(gets) >= 2 and i % 3 == 0:
+                # between two requests of one observation the shared background re-estimates its noise level (the stream draws a
+                # throw-away block and restores its clock): what the antennas carry over must not be affected
+                at = int(rng.integers(1, len(gets)))
+                gets.insert(at, ['bgupd', int(common.pick(rng, [50, 400, 10000]))])
+            ops.extend(gets)
         form = 'list' if delays is None else FORMS[int(rng.integers(3))]
         bg = [_content(rng, bgk, rate, fch1, asc) for _ in range(npol)]
         own = [[_content(rng, ownk, rate, fch1, asc) for _ in range(npol)] for _ in range(na)]
@@ -391,6 +398,12 @@ def run_case(c, R):
                     own_chunks[i][p].append(np.array(st.get_samples(n), dtype=float))
             reqs.append((n, out.astype(float)))
             delivered += n
+            continue
+        if op[0] == 'bgupd':
+            R.bucket('bg-update_noise-between-requests')
+            with common.quiet():
+                for bgs in _bg_streams(arr, npol):
+                    bgs.update_noise(stats_calc_num_samples=int(op[1]))
             continue
         # clock operation: the running observation ends here
         finalize()
